@@ -68,11 +68,13 @@ class AFrame(Stub):
         # row-changing / value-changing operations are recorded, not modelled
         if name.startswith("_"):
             raise AttributeError(name)
-        if name in ("dropna", "sort_index", "reset_index", "fillna", "head", "tail", "drop", "reindex", "loc", "iloc", "resample", "groupby", "rename", "astype", "round"):
-            def op(*a, **k):
-                return AFrame(self.origin, self.cols, self.ops + (name,))
-            return op
-        raise AttributeError(name)
+        if name in ("loc", "iloc", "at", "iat", "values", "T", "shape", "dtypes", "empty"):
+            raise AttributeError(name)
+
+        def op(*a, **k):
+            # any pandas method on the frame: recorded by name (tz_convert, shift, dropna, ...), the judges require "no operation"
+            return AFrame(self.origin, self.cols, self.ops + (name,))
+        return op
 
     def desc(self):
         return {"frame": self.origin, "ops": list(self.ops)}
@@ -81,6 +83,12 @@ class AFrame(Stub):
 class AIndexTok(Stub):
     def __init__(self, fr):
         self.fr = fr
+
+    def __getattr__(self, name):
+        if name.startswith("_"):
+            raise AttributeError(name)
+        from engine.absint import Opaque
+        return Opaque(f"index.{name}")
 
 
 class ACol(Stub):
@@ -151,8 +159,16 @@ class AAgg(Stub):
 
 
 class AConcat(Stub):
-    def __init__(self, items, axis):
-        self.items, self.axis = items, axis
+    def __init__(self, items, axis, ops: Tuple[str, ...] = ()):
+        self.items, self.axis, self.ops = items, axis, tuple(ops)
+
+    def __getattr__(self, name):
+        if name.startswith("_") or name in ("loc", "iloc", "values", "T", "shape", "empty", "columns", "index"):
+            raise AttributeError(name)
+
+        def op(*a, **k):
+            return AConcat(self.items, self.axis, self.ops + (name,))
+        return op
 
 
 class PD(Stub):
@@ -231,7 +247,7 @@ def interpret_predict(chk, fi: FuncInfo, classes, aggregation, with_observed: bo
                 items.append(x.desc())
             else:
                 items.append({"other": type(x).__name__})
-        return {"returns": "concat", "axis": res.axis, "items": items, "predict_calls": model.predict_calls}
+        return {"returns": "concat", "axis": res.axis, "items": items, "ops": list(res.ops), "predict_calls": model.predict_calls}
     return {"returns": "other", "value": repr(res)[:80], "predict_calls": model.predict_calls}
 
 
